@@ -528,6 +528,7 @@ def install(I, world_of, abstract_stream=True, abstract_parse=True, target=None,
         return I_.setattr(st, o, name, v, node)
 
     I.specs[("fn", id(setattr))] = setattr_spec
+    install_unicodedata(I)
 
     def zip_kw(I_, st, args, kwargs, node):
         cols = [I_.iter_concrete(st, a, node) for a in args]
@@ -1390,6 +1391,24 @@ class HelperVC(VC):
 # distinct parameter / keyword names (W1, W2): scripted token streams with symbolic names
 # ------------------------------------------------------------------------------------------------
 
+NFKC = z3.Function("unicodedata.normalize[NFKC]", z3.StringSort(), z3.StringSort())
+
+
+def install_unicodedata(I):
+    import unicodedata
+
+    def normalize(I_, st, args, kwargs, node):
+        form, s = args
+        if form != "NFKC":
+            return None
+        if isinstance(s, str):
+            return [(st, unicodedata.normalize("NFKC", s))]
+        models.used("unicodedata.normalize")
+        return [(st, Sym(NFKC(to_term(s, "str")), "str", getattr(s, "tags", frozenset())))]
+
+    I.specs[("fn", id(unicodedata.normalize))] = normalize
+
+
 class DistinctVC(VC):
     """parse_signature / parse_call_args on a token script `( n1 , n2 [, n3] )` resp. `( k1 = e , k2 = e [...] )` whose
     name values are symbolic: the names stored in the node must be pairwise distinct (Python rejects a duplicate
@@ -1520,15 +1539,25 @@ class DistinctVC(VC):
         names = self.stored_names(out)
         if names is None or len(names) != self.n:
             return False
-        ts = [to_term(x, "str") for x in names]
+        # Python compares identifiers after NFKC normalisation (PEP 3131): the generated parameter / keyword names must be
+        # distinct as Python identifiers, not only as raw strings
+        ts = [NFKC(to_term(x, "str")) for x in names]
         return z3.Distinct(*ts) if len(ts) > 1 else True
 
     posts = [("distinct_or_TemplateSyntaxError", p_distinct)]
 
     def concretize(self, model, pre, out):
         vals = [model_value(model, v.t) for v in self.names]
+        norm = [str(model.eval(NFKC(v.t), model_completion=True)) for v in self.names]
         canon = {}
-        names = [canon.setdefault(v, "abcdefgh"[len(canon)]) for v in vals]
+        names = [canon.setdefault(v, "abcdegh"[len(canon)]) for v in vals]
+        if len(set(vals)) == len(vals):
+            # raw strings distinct, normal forms collide: the classic pair U+FB01 (fi ligature) / "fi"
+            for i in range(len(vals)):
+                for j in range(i + 1, len(vals)):
+                    if norm[i] == norm[j]:
+                        names[i], names[j] = "\ufb01", "fi"
+                        return {"method": self.method, "names": names, "nfkc_collision": True}
         return {"method": self.method, "names": names}
 
     def replay(self, w):
@@ -1537,6 +1566,8 @@ class DistinctVC(VC):
     def finding_key(self, res):
         w = res.witness or {}
         names = w.get("names") or []
+        if w.get("nfkc_collision"):
+            return "nfkc-collision"
         return "duplicate-name" if len(set(names)) < len(names) else f"other:{names}"
 
 
